@@ -92,10 +92,8 @@ static ld ref_expect(const std::vector<double>& h, ld tau, const Mat& rho, const
   return trace(R * O).real();
 }
 
-static void run_case_body(ByteSource& s, CaseInfo& ci);
-// the interpolating overloads keep per-thread scratch buffers: each case runs on its own thread so that it is a pure function of its bytes
-void run_case(ByteSource& s, CaseInfo& ci) { in_fresh_thread([&] { run_case_body(s, ci); }); }
-static void run_case_body(ByteSource& s, CaseInfo& ci) {
+// (cases run on a fresh thread: harness.h default) - the per-thread scratch and, for C07, the call history start from scratch
+void run_case(ByteSource& s, CaseInfo& ci) {
   bool two = s.choose(3) == 1;
   Built B1 = build(s);
   Built B2; if (two) B2 = build(s, 2 + (B1.d - 2 + 1 + (int)s.choose(4)) % 5);
